@@ -17,7 +17,7 @@ def run(ck):
     # ------------------------------------------------------------------ R1 constructor contract
     a = ck.analyse(EXT + '::new', {'kslots': 32})
     n = ck.count_obligations(a.obligations(), 'C13.R1')
-    ck.rule('C13.R1 panic obligations of Extension::new (unreachable!, expect)', n, 5)
+    ck.rule('C13.R1 panic obligations of Extension::new (unreachable!, expect)', n, 2)
     idv = a.args[0][1]
     dlen = a.args[1][3]
     i_data = field_index(f, EXT, 'data')
@@ -119,34 +119,27 @@ def run(ck):
     # ------------------------------------------------------------------ R4 only decodable combinations are accepted
     wa = analyse_writer(ck, ENC + 'encap_ext', extra=c09.ENCCFG)
     env = writer_env(ck, wa, 'encap_ext')
-    flag_local = [i for i, nme in wa.body.local_names.items() if nme == 'is_there_final_mandatory_extension']
     ext_arg = wa.arg('extensions')
     i_id = field_index(f, EXT, 'id')
     n4 = 0
-    if not flag_local:
-        ck.finding('C13.R4', ENC + 'encap_ext', 'anchor-lost', 'encap_ext: the final-mandatory flag is gone (kind=anchor-lost)')
     for r in wa.events('call'):
-        if r.data[1] != GEN_HDR or r.site[0] != ENC + 'encap_ext' or not flag_local:
+        if r.data[1] != GEN_HDR:
             continue
         W = r.data[5]
-        fl = W.mem.get(('L', env['root_fid'], flag_local[0]))
-        if fl is None or fl[0] != 'bool' or fl[1][0] != 'c':
-            ck.finding('C13.R4', ENC + 'encap_ext', 'flag-unknown', 'encap_ext: final-mandatory flag not a constant at the header call', r.site)
-            continue
         n4 += 1
         ck.obligations += 1
         pt = env['ptype']
-        if fl[1][1]:
+        # a packet is only built for a decodable combination: either the protocol type is a real one (>= 0x0600, written
+        # after the chain), or it is the id (< 0x0100) of the final mandatory extension that ends the chain in its place
+        if W.store.entails(le(Lin.c(0x600), pt)):
+            good = True
+        else:
             last = last_ext_id(wa, W, ext_arg, i_id)
             good = W.store.entails(lt(pt, Lin.c(0x100))) and last is not None and W.store.entails_eq(last, pt)
-            what = 'protocol type < 0x0100 and equal to the id of the last extension (which replaces it on the wire)'
-        else:
-            good = W.store.entails(le(Lin.c(0x600), pt))
-            what = 'protocol type >= 0x0600 (written after the chain)'
         if good:
             ck.discharged += 1
         else:
-            ck.finding('C13.R4', ENC + 'encap_ext', f"undecodable:{fl[1][1]}", f"encap_ext builds a packet with final-mandatory={fl[1][1]} without {what}", r.site)
+            ck.finding('C13.R4', ENC + 'encap_ext', 'undecodable', 'encap_ext builds a packet although the protocol type is neither >= 0x0600 nor (< 0x0100 and equal to the id of the last extension, which then ends the chain in its place)', r.site)
     ck.rule('C13.R4 header calls of encap_ext', n4, 8)
     # ------------------------------------------------------------------ R5 unknown mandatory extension: whole packet dropped at its own length, nothing acquired
     unk = variant_index(f, MHE, 'Unknown')
@@ -175,6 +168,54 @@ def run(ck):
             else:
                 ck.finding('C13.R5', DEC + 'decap', f"unknown-mandatory:{names}", f"a packet with a mandatory extension unknown to the receiver ends in {names} (acquired storage: {ghost(w, 'acq') is not None}); expected Err(ErrorUnkownMandatoryHeader) consuming exactly the packet, with no storage taken")
     ck.rule('C13.R5 returns of decap after the manager answered Unknown', n5, 2)
+    # ------------------------------------------------------------------ R6 the walker reads the extension area as one contiguous prefix
+    # Every window of the extension area the walker looks at (extension data, next extension id) starts where the previous one
+    # ended, the first at offset 0, and the length it reports is the end of the last window: no byte is skipped, read twice, or
+    # left to the payload by mistake.  (Which size each extension has is R2 / the manager; this is the offset bookkeeping.)
+    WALK = 'gse_decap::iterate_over_extension_header'
+    wbody = f.body(WALK)
+    area_i = param_index(wbody, 'pdu')
+    st_adt = [t for t in f.adts if t.endswith('IterateOverExtensionHeaderStatus')]
+    if not st_adt:
+        raise Tooling('anchor lost: IterateOverExtensionHeaderStatus')
+    i_hlen = field_index(f, st_adt[0], 'header_ext_len')
+    holder = {}
+
+    def start_walk(I, w, args):
+        holder['root'] = args[area_i - 1][1].root
+        w.mem[('G', '~rd_end')] = ('int', Lin.c(0))
+
+    def on_slice(I, w, frame, site, base, lo, hi):
+        if base.root != holder.get('root') or base.path:
+            return
+        prev = w.mem.get(('G', '~rd_end'))
+        holder['n'] = holder.get('n', 0) + 1
+        if prev is None or prev[0] != 'int' or not w.store.entails_eq(prev[1], lo):
+            w.mem[('G', 'rd_gap')] = ('enum', ((1, ()),))
+            holder.setdefault('gaps', []).append((site, lo.pretty(), prev[1].pretty() if prev and prev[0] == 'int' else '?'))
+        w.mem[('G', '~rd_end')] = ('int', hi)
+    wk = ck.analyse(WALK, {'kslots': 8, 'slice_hook': on_slice}, assume=start_walk, tag='c13-walk')
+    n6 = 0
+    for w, rv in wk.rets:
+        for v, fs in (ret_alts(rv) or []):
+            if v != 0:
+                continue
+            n6 += 1
+            ck.obligations += 1
+            st = fs[0]
+            end = w.mem.get(('G', '~rd_end'))
+            good = st[0] == 'agg' and st[1][i_hlen][0] == 'int' and end is not None and end[0] == 'int' and \
+                w.store.entails_eq(st[1][i_hlen][1], end[1]) and ghost(w, 'rd_gap') is None
+            if good:
+                ck.discharged += 1
+            elif ghost(w, 'rd_gap') is not None:
+                ck.finding('C13.R6', WALK, 'gap', 'the extension walker reads a window of the extension area that does not start where the previous one ended (bytes skipped or read twice)')
+            else:
+                ck.finding('C13.R6', WALK, 'reported-length', f"the extension walker reports {st[1][i_hlen][1].pretty() if st[0] == 'agg' and st[1][i_hlen][0] == 'int' else '?'} bytes of extension area, but the last window it read ends at {end[1].pretty() if end and end[0] == 'int' else '?'}: the payload would start inside / beyond the extension area")
+    if os.environ.get('VERIF_DEBUG'):
+        print('GAPS', holder.get('gaps'))
+    ck.rule('C13.R6 Ok returns of the extension walker', n6, 1)
+    ck.rule('C13.R6 windows of the extension area read by the walker', holder.get('n', 0), 3)
     # ------------------------------------------------------------------ R7 bundled managers
     sm = ck.analyse('<header_extension::SimpleMandatoryExtensionHeaderManager as header_extension::MandatoryHeaderExtensionManager>::is_mandatory_header_id_known', {'kslots': 8})
     for w, rv in sm.rets:
